@@ -170,6 +170,7 @@ impl Prop for C08 {
             }
         })));
         let stop = AtomicBool::new(false);
+        let done = (std::sync::Mutex::new(false), std::sync::Condvar::new());
         let cache = w.cache;
         let src = &w.src;
         std::thread::scope(|s| {
@@ -187,6 +188,7 @@ impl Prop for C08 {
             }
             for t in 0..c.loaders {
                 let stop = &stop;
+                let done = &done;
                 s.spawn(move || {
                     HARNESS_TIDS.lock().unwrap().push(crate::procfs::gettid());
                     let mut i = 0u64;
@@ -198,8 +200,12 @@ impl Prop for C08 {
                             let _ = cache.load_owned::<world::Leaf>(LEAVES[(i as usize + 1) % LEAVES.len()]);
                         }
                         if i > 4000 {
-                            // enough pressure: idle until the callers are done
-                            std::thread::sleep(std::time::Duration::from_millis(1));
+                            // enough pressure: block (no CPU, so that a deadlock of the callers leaves every
+                            // thread asleep) until the callers are done
+                            let mut g = done.0.lock().unwrap();
+                            while !*g {
+                                g = done.1.wait(g).unwrap();
+                            }
                         }
                     }
                 });
@@ -241,6 +247,8 @@ impl Prop for C08 {
                 let _ = cj.join();
             }
             stop.store(true, SeqCst);
+            *done.0.lock().unwrap() = true;
+            done.1.notify_all();
         });
         // a last synchronous pass: still answers
         STARTED.fetch_add(1, SeqCst);
